@@ -21,6 +21,9 @@ MOD_OF = {"arc.rs": "arc", "header.rs": "header", "thin_arc.rs": "thin_arc", "of
           "arc_swap_support.rs": "arc_swap_support",
           "iterator_as_exact_size_iterator.rs": "iterator_as_exact_size_iterator"}
 
+# abbreviations accepted in the sidecar files
+ABBREV = [("V", "crate::vrt"), ("TH", "crate::thin_arc::kani_h"), ("UH", "crate::arc_union::kani_h"),
+          ("QH", "crate::unique_arc::kani_h")]
 _scratch_dirs = []
 
 
@@ -129,6 +132,8 @@ def inject_contracts(src_dir, contracts, report):
             indent = re.match(r"\s*", lines[idx]).group(0)
             new = []
             for kind, expr in it["clauses"]:
+                for short, full in ABBREV:
+                    expr = re.sub(r"\b%s::" % short, full + "::", expr)
                 cond = "kani" if not it.get("cfg") else "all(kani, %s)" % it["cfg"]
                 new.append("%s#[cfg_attr(%s, kani::%s(%s))]" % (indent, cond, kind, expr))
             ins.append((idx, new))
@@ -143,7 +148,7 @@ def inject_contracts(src_dir, contracts, report):
 # harness tags
 # --------------------------------------------------------------------------------------------
 TAG_RE = re.compile(r"^\s*//\s*@h\s+(.*)$")
-FN_RE = re.compile(r"\bfn\s+(\w+)\s*\(\s*\)")
+FN_RE = re.compile(r"\b(c\d\d_\w+)\b")
 
 
 def parse_harness_tags():
